@@ -222,6 +222,12 @@ class AsyncServer(base_server.BaseServer):
         else:
             environ = translate_request(*args, **kwargs)
 
+        if not environ:
+            # the driver could not read a request, for example because the
+            # client went away before sending it
+            self.logger.warning('Request could not be read, ignoring it')
+            return
+
         if self.cors_allowed_origins != []:
             # Validate the origin header if present
             # This is important for WebSocket more than for HTTP, since
